@@ -142,8 +142,62 @@ class DbInfo:
                             continue
                         shp = closure_predicate_shape(self.crate, cf)
                         if shp and shp["cmp"] == "ne" and shp["capture_param"] is not None:
+                            # the sweep is unconditional: the loop that retains is entered on every path through f (an early
+                            # return that depends on what some other map currently holds makes the clear miss entries a
+                            # concurrent analysis of the same file has just written)
+                            from .rules.r1e import natural_loops
+                            loops = [(h, body) for h, _l, body in natural_loops(f) if bb in body]
+                            if loops:
+                                h = max(loops, key=lambda x: len(x[1]))[0]
+                                if h not in f.postdominators().get(0, set()) and not self._bypass_only_after_take(f, h):
+                                    continue
                             return ("retain", shp["capture_param"])
         return None
+
+    def _bypass_only_after_take(self, f, h):
+        """every branch that lets f return without entering the loop at h is decided by the outcome of an exclusive
+        `remove(..)` on a database map (an atomic take of the companion index: `let Some(names) = idx.remove(file) else
+        return`), not by a read-only peek"""
+        def reach(a, avoid):
+            seen, st = {a}, [a]
+            while st:
+                x = st.pop()
+                for s2 in f.succs(x):
+                    if s2 not in seen and s2 != avoid:
+                        seen.add(s2)
+                        st.append(s2)
+            return seen
+        before = reach(0, h)            # blocks reachable from the entry without passing the loop
+        deciding = []
+        for b in before:
+            t = f.blocks[b]["t"]
+            if t[0] != "switch":
+                continue
+            succ = f.succs(b)
+            can = [any(x == h for x in reach(s2, None) | {s2}) for s2 in succ]
+            if any(can) and not all(can):
+                deciding.append(b)
+        if not deciding:
+            return False
+        takes = {place_local(op.call["dest"]) for op in self.fn_ops(f.id) if op.method == "remove" and op.family == "dashmap"}
+        for b in deciding:
+            t = f.blocks[b]["t"]
+            src = None
+            for st in f.blocks[b]["s"]:
+                if st[0] == "=" and st[2][0] == "discr" and place_local(st[1]) == op_local(t[1]):
+                    src = place_local(st[2][1])
+            # follow plain moves back to the call that produced the Option
+            seen = set()
+            while src is not None and src not in seen and src not in takes:
+                seen.add(src)
+                ds = f.whole_defs(src)
+                if len(ds) == 1 and ds[0][0] == "assign" and ds[0][3][0] == "use" and op_local(ds[0][3][1]) is not None:
+                    src = op_local(ds[0][3][1])
+                else:
+                    break
+            if src not in takes:
+                return False
+        return True
 
     def local_param_origin(self, f, op):
         """index of the parameter of f this operand is (a value-preserving view of), else None"""
